@@ -200,19 +200,22 @@ def decode_value(f: Field, v: bytes):
 
 
 # ---------------------------------------------------------------- bridging plain trees and library objects
-def build(cls, tree: dict):
-    """Instantiate the (library's) dataclass from a plain tree."""
+def build(cls, tree: dict, carriers=None):
+    """Instantiate the (library's) dataclass from a plain tree.  carriers: other Python values a caller may legitimately put into a field -
+    'loose': a bytearray where bytes are declared, the plain number where an IntEnum is declared."""
     kwargs = {}
     for f in schema(cls):
         v = tree.get(f.name)
         if v is None:
             continue
         if f.kind == "enum":
-            v = f.arg(v)
+            v = f.arg(v) if carriers != "loose" else int(v)
         elif f.kind == "struct":
-            v = build(f.arg, v)
+            v = build(f.arg, v, carriers)
         elif f.kind == "list":
-            v = [build(f.arg, item) for item in v]
+            v = [build(f.arg, item, carriers) for item in v]
+        elif carriers == "loose" and isinstance(v, bytes):
+            v = bytearray(v)
         elif f.kind == "packed":
             v = list(v)
         kwargs[f.name] = v
